@@ -437,6 +437,7 @@ class Oracle:
         self.before = U.snapshot()
         self.n_before = len(U.objs)
         self.cells_before = [U.cells(o) for o in U.objs]
+        self.normal_before = all(normalised(o) or not o._stoichiometry.any() for o in U.objs if is_rxn(o))
         self.ref = None
         if self.op in INPLACE:
             # the binary form on the same operands, computed first (it must not change them either)
@@ -516,6 +517,12 @@ class Oracle:
                         break
             if op != 'reduce' and (is_item(res) or not is_rxn(res)) and not any(o is res for o in U.objs[:self.n_before]):
                 self.add('%s:result-not-a-reaction' % op, 'the result of `%s` is a %s' % (self.line, type(res).__name__))
+        # ---- hypothesis monitor: what the operations return stays normalised on its reactant (or empty) ----
+        if kind == 'ret' and is_rxn(res) and op not in ('item', 'setbasis', 'setx', 'empty'):
+            if self.normal_before and not normalised(res) and res._stoichiometry.any():
+                self.add('%s:result-not-normalised' % op,
+                         'after `%s` the reactant coefficient of the result is %r, not -1'
+                         % (self.line, float(res._stoichiometry[res._reactant_index])))
         # ---- in-place == binary -----------------------------------------------------------------
         if self.ref is not None:
             if self.ref[0] == 'err':
